@@ -141,3 +141,120 @@ Theorem resume_sound_resave_refuted :
     nth i valid false = false.
 Proof. exact ProofsSound.resume_sound_resave_refuted. Qed.
 Print Assumptions resume_sound_resave_refuted.
+
+(* ---------------------------------------------------------------- the per-file decision table *)
+From LTV.C10 Require Import ProofsTable.
+
+(* resume_file_table_total: for EVERY file, stat result and entry, load_file is the action named by the
+   case table ProofsTable.file_verdict (PadSkip | Throw | Trust | Clear flags recheck) *)
+Theorem resume_file_table_total : forall n s k f e,
+  load_file n s k f e =
+  match file_verdict f e with
+  | PadSkip => Some s
+  | Throw => None
+  | Trust => Some (set_flags s k (false, false))
+  | Clear fl rc => update_range n (set_flags s k fl) rc (fi_first f) (fi_last f)
+  end.
+Proof. exact ProofsTable.load_file_table. Qed.
+Print Assumptions resume_file_table_total.
+
+(* resume_file_table: non-padding file, saved mtime other than ~0 / ~1.  Over all combinations of
+   (missing | smaller | larger | same size) x (~3 | ~2 | on-disk mtime | any other mtime) the file is
+   trusted (flags cleared, bits and ranges untouched) when it exists with the saved size and the entry
+   is ~3 or (not ~2 and) the on-disk mtime; in EVERY other combination the result is exactly
+   update_range over the whole file range with recheck, resize queued iff missing / other size; and
+   when that update_range is visible (non-empty range starting at a piece not yet queued) the trusted
+   outcome characterises the condition (iff). *)
+Theorem resume_file_table : forall n s k f m,
+  fi_pad f = false -> m <> m0 -> m <> m1 ->
+  let trusted := exists mt, fi_stat f = Some (fi_size f, mt) /\ (m = m3 \/ (m <> m2 /\ m = mt)) in
+  let resize := match fi_stat f with Some (sz, _) => negb (N.eqb sz (fi_size f)) | None => true end in
+  (trusted -> load_file n s k f (FMap (MVal m)) = Some (set_flags s k (false, false))) /\
+  (~ trusted ->
+     load_file n s k f (FMap (MVal m)) =
+     update_range n (set_flags s k (false, resize)) true (fi_first f) (fi_last f)) /\
+  (fi_first f < fi_last f -> fi_first f < length (l_ranges s) ->
+   nth (fi_first f) (l_ranges s) false = false ->
+   (load_file n s k f (FMap (MVal m)) = Some (set_flags s k (false, false)) <-> trusted)).
+Proof. exact ProofsTable.resume_file_table. Qed.
+Print Assumptions resume_file_table.
+
+(* the remaining rows (~0, ~1, no mtime, entry not a map), making the table total *)
+Theorem resume_file_table_special : forall n s k f,
+  fi_pad f = false ->
+  let ex := match fi_stat f with Some _ => true | None => false end in
+  load_file n s k f (FMap (MVal m0)) = update_range n (set_flags s k (true, true)) ex (fi_first f) (fi_last f) /\
+  load_file n s k f (FMap (MVal m1)) = update_range n (set_flags s k (false, false)) ex (fi_first f) (fi_last f) /\
+  load_file n s k f (FMap MNone) = update_range n (set_flags s k (true, true)) true (fi_first f) (fi_last f) /\
+  load_file n s k f FNotMap = None.
+Proof. exact ProofsTable.resume_file_table_special. Qed.
+Print Assumptions resume_file_table_special.
+
+(* all 4 x 4 cells (stat: missing | smaller | larger | equal) x (entry: ~3 | ~2 | disk mtime | other):
+   exactly the three cells (equal, ~3), (equal, disk mtime) are Trust; every other cell rechecks, with
+   resize queued exactly in the first three rows *)
+Example resume_file_table_nonvacuous :
+  let fi st := mkFI 0 4 false 8192%N st in
+  let stats := [None; Some (100%N, 500%Z); Some (9000%N, 500%Z); Some (8192%N, 500%Z)] in
+  let ents := [m3; m2; 500%Z; 501%Z] in
+  map (fun st => map (fun m => file_verdict (fi st) (FMap (MVal m))) ents) stats =
+  [ [Clear (false, true) true; Clear (false, true) true; Clear (false, true) true; Clear (false, true) true];
+    [Clear (false, true) true; Clear (false, true) true; Clear (false, true) true; Clear (false, true) true];
+    [Clear (false, true) true; Clear (false, true) true; Clear (false, true) true; Clear (false, true) true];
+    [Trust; Clear (false, false) true; Trust; Clear (false, false) true] ] /\
+  load_file 8 (mkL (Some (repeat true 8)) (repeat false 8) [(true, true)]) 0 (fi (Some (8192%N, 500%Z))) (FMap (MVal 501%Z))
+  = Some (mkL (Some [false; false; false; false; true; true; true; true])
+              [true; true; true; true; false; false; false; false] [(false, false)]) /\
+  load_file 8 (mkL (Some (repeat true 8)) (repeat false 8) [(true, true)]) 0 (fi (Some (8192%N, 500%Z))) (FMap (MVal m3))
+  = Some (mkL (Some (repeat true 8)) (repeat false 8) [(false, false)]).
+Proof. vm_compute. repeat split; reflexivity. Qed.
+
+(* resume_save_load_file_roundtrip: saving a file's entry and loading it with nothing changed on disk is
+   stable — a present file is trusted both when saved synced (real mtime) and when saved active (~3);
+   a missing file is saved as ~0 / ~1 and loading clears its bits without queueing a recheck *)
+Theorem resume_save_load_file_roundtrip : forall n s k f cq all_set active,
+  fi_pad f = false ->
+  let e := FMap (MVal (saved_mtime (fi_stat f) cq all_set active)) in
+  (forall mt, fi_stat f = Some (fi_size f, mt) -> mt <> m0 -> mt <> m1 -> mt <> m2 -> mt <> m3 ->
+     load_file n s k f e = Some (set_flags s k (false, false))) /\
+  (fi_stat f = None ->
+     load_file n s k f e = update_range n (set_flags s k (cq, cq)) false (fi_first f) (fi_last f) /\
+     forall s', load_file n s k f e = Some s' -> l_ranges s' = l_ranges s).
+Proof. exact ProofsTable.save_load_file_roundtrip. Qed.
+Print Assumptions resume_save_load_file_roundtrip.
+
+Example resume_save_load_file_roundtrip_nonvacuous :
+  let s := mkL (Some (repeat true 8)) (repeat false 8) [(true, true)] in
+  let f := mkFI 0 4 false 8192%N (Some (8192%N, 500%Z)) in
+  let g := mkFI 0 4 false 8192%N None in
+  load_file 8 s 0 f (FMap (MVal (saved_mtime (fi_stat f) false true true))) = Some (set_flags s 0 (false, false)) /\
+  load_file 8 s 0 f (FMap (MVal (saved_mtime (fi_stat f) false false true))) = Some (set_flags s 0 (false, false)) /\
+  saved_mtime (fi_stat f) false false true = m3 /\
+  load_file 8 s 0 g (FMap (MVal (saved_mtime (fi_stat g) true false true)))
+  = Some (mkL (Some [false; false; false; false; true; true; true; true]) (repeat false 8) [(true, true)]).
+Proof. vm_compute. repeat split; reflexivity. Qed.
+
+(* resume_unc_ranges_merge: resume_load_uncertain_pieces MERGES into what the per-file pass left: a
+   piece is queued for the check afterwards iff it was queued before or is named by one of the complete
+   4-byte groups of the uncertain string; a bit is set afterwards iff it was set before and the piece is
+   not named; the file flags are untouched *)
+Theorem resume_unc_ranges_merge : forall n s u b s',
+  l_bits s = Some b -> length b = n -> length (l_ranges s) = n ->
+  load_unc n s u (length u) = (s', true) ->
+  exists b', l_bits s' = Some b' /\ l_flags s' = l_flags s /\
+    forall i, i < n ->
+      (nth i (l_ranges s') false = true <-> nth i (l_ranges s) false = true \/ In i (unc_indices u (length u))) /\
+      (nth i b' false = true <-> nth i b false = true /\ ~ In i (unc_indices u (length u))).
+Proof. exact ProofsTable.unc_ranges_merge. Qed.
+Print Assumptions resume_unc_ranges_merge.
+
+(* pieces 1 and 6 named (plus one trailing byte, ignored); piece 4 was already queued and stays queued *)
+Example resume_unc_ranges_merge_nonvacuous :
+  let s := mkL (Some [true; true; false; true; true; true; true; true])
+               [false; false; false; false; true; false; false; false] [(false, false)] in
+  let u := [0; 0; 0; 1; 0; 0; 0; 6; 9]%N in
+  unc_indices u (length u) = [1; 6] /\
+  load_unc 8 s u (length u) =
+  (mkL (Some [true; false; false; true; true; true; false; true])
+       [false; true; false; false; true; false; true; false] [(false, false)], true).
+Proof. vm_compute. split; reflexivity. Qed.
